@@ -9,6 +9,7 @@ import fcntl
 import hashlib
 import json
 import os
+import re
 import shutil
 import subprocess
 import sys
@@ -110,13 +111,31 @@ def ensure(config, verbose=True):
 
 
 _loaded = {}
+_PATH3 = re.compile(r'\b(core|alloc)::([A-Za-z_0-9]+)(?:::(<impl|[A-Za-z_0-9]+))?')
+
+
+def _std_names(text):
+    """A build without `std` prints the library paths that std re-exports as `core::…` / `alloc::…`. Rewrite those to the
+    `std::…` spelling of the default build so that the std models, root classification and justification keys are the same
+    in every configuration; a path that the default build itself prints under `core::`/`alloc::` (inherent impls, internal
+    modules) is kept."""
+    keep = set(m.group(0) for m in _PATH3.finditer(open(ensure("default", verbose=False)).read()))
+
+    def sub(m):
+        if m.group(0) in keep or (m.group(3) and "%s::%s" % (m.group(1), m.group(2)) in keep and m.group(3) == "<impl"):
+            return m.group(0)
+        return "std::" + m.group(0).split("::", 1)[1]
+    return _PATH3.sub(sub, text)
 
 
 def load(config):
     if config not in _loaded:
         p = ensure(config)
         with open(p) as fh:
-            d = json.load(fh)
+            text = fh.read()
+        if config == "nodefault":
+            text = _std_names(text)
+        d = json.loads(text)
         if d.get("crate") != "chrono":
             raise SystemExit("facts: fact file does not describe crate chrono")
         _loaded[config] = d
